@@ -66,6 +66,11 @@ func cmdList(args []string) {
 	for k := range p.AppendOnly {
 		fmt.Println("append-only:", k)
 	}
+	for k := range p.InitOnly {
+		if strings.HasPrefix(k, "MH|") {
+			fmt.Println("init-only map type:", k)
+		}
+	}
 	for _, k := range p.allFieldKeys() {
 		if !p.InitOnly[k] {
 			fmt.Println("mutable-after-construction:", k)
